@@ -1,7 +1,7 @@
 """C08 - no undefined behaviour or memory error on any generation path (UB classes visible in the code's shape)."""
 from .. import callgraph, cpp2ir, project
 from ..framework import Report
-from ..rules import arrays, inv
+from ..rules import arrays, inv, vecindex
 
 
 def run(tier, seed):
@@ -17,6 +17,9 @@ def run(tier, seed):
     nlit, ncnt, other = arrays.check_literal_and_counted(rep, prog, lib)
     arrays.check_spectrum_tables(rep, prog)
     nd = arrays.check_int_division(rep, prog, lib)
+    nv = vecindex.check(rep, prog, lib)
+    rep.analysed['std::vector subscripts with a non-literal index'] = nv
+    rep.floor('VECTOR.index', nv, 30)
     rep.analysed['literal subscripts checked'] = nlit
     rep.analysed['counted-loop subscripts checked'] = ncnt
     rep.analysed['integer divisions by a variable'] = nd
